@@ -25,6 +25,9 @@ func (f SolarChargerTrackerModeFactoryType) New(v uint8) (SolarChargerTrackerMod
 }
 
 func (f SolarChargerTrackerModeFactoryType) NewEnum(v int) (Enum, error) {
+	if v < 0 || v > 255 {
+		return nil, ErrInvalidEnumIdx
+	}
 	return f.New(uint8(v))
 }
 
